@@ -664,43 +664,11 @@ fn k04_enum_fields_backed_one_field() {
     fields_case!(true, false, 2, false)
 }
 
-//@ prop: C04
-//@ family: K04-enum-fields
-//@ tier: quick
-//@ functions: validators::enums::compact_enums_cannot_contain_tags (called directly: through validate_enum the compact cases exceed 24 GB), Enumerator::fields, Member::is_tagged
-//@ inst: hand-built unbacked Enum, one enumerator with exactly one field (concrete shape)
-//@ inputs: is_compact; the field tagged or not (any u32)
-//@ oracle: "compact types untagged": E015 iff compact and the field is tagged; nothing else
-//@ stubs: std::fmt::format -> empty string
-//@ bound: unwind 3; at most one diagnostic. Trusted in addition: that validate_enum calls this rule (shown for the other rules by the harnesses above)
-#[kani::proof]
-#[kani::unwind(3)]
-#[kani::stub(std::fmt::format, stub_format)]
-fn k04_enum_compact_untagged() {
-    let tagged: bool = kani::any();
-    let tag: u32 = kani::any();
-    let compact: bool = kani::any();
-    let prim = OwnedPtr::new(Primitive::UInt8);
-    let f = a_field(tagged, tag);
-    let e0 = enumerator_with_fields(2, &f);
-    let enum_def = enum_with(&prim, &e0, false, false, compact, false, false);
-    let mut diagnostics = Diagnostics::verif_with_capacity(2);
-    compact_enums_cannot_contain_tags(&enum_def, &mut diagnostics);
-    let want = compact && tagged;
-    kani::cover!(want && tag == 0, "compact enum with a field tagged 0 reachable");
-    kani::cover!(!compact && tagged, "tagged field in an ordinary enum accepted reachable");
-    let ds = diagnostics.into_inner();
-    assert!(ds.len() == want as usize, "a tagged field is diagnosed exactly when the enum is compact");
-    if want {
-        let c = ds[0].code().as_bytes();
-        assert!(c.len() == 4 && c[0] == b'E' && c[1] == b'0' && c[2] == b'1' && c[3] == b'5', "with E015 (compact type cannot contain tagged fields)");
-    }
-    core::mem::forget(ds);
-    core::mem::forget(enum_def);
-    core::mem::forget(e0);
-    core::mem::forget(f);
-    core::mem::forget(prim);
-}
+// ("compact enums untagged" - a compact enum whose enumerator has a tagged field - is NOT covered: through the public
+// validate_enum it exceeds 24 GB at every unwind bound that passes the unwinding assertions, and a harness calling the
+// private compact_enums_cannot_contain_tags directly was removed because a behaviour-preserving refactoring that hoists
+// the is_compact guard into validate_enum (seeded/REF-r5) turns the helper's precondition into a debug_assert and would
+// have made that harness raise a false alarm.  The same rule for structs is covered by k04_struct_one_field.)
 
 //@ prop: C04
 //@ family: K04-enum-fields
